@@ -1168,7 +1168,7 @@ fn gen_ring(rng: &mut Rng) -> Vec<C> {
     let sw = SWARM.with(|s| s.get());
     if sw.long_rings && rng.chance(1, 2) {
         // long rings: 9..130 coordinates, closed or open
-        let span = *rng.pick(&[8usize, 24, 56, 120]);
+        let span = *rng.pick(&[8usize, 24, 56, 120, 250]);
         let n = 9 + rng.below(span);
         let mut v: Vec<C> = (0..n).map(|_| gen_c(rng)).collect();
         if rng.chance(1, 2) {
@@ -1323,7 +1323,7 @@ pub fn gen_history(seed: u64) -> History {
     SWARM.with(|s| s.set(sw));
     let n = if rng.chance(1, 12) { 17 + rng.below(60) } else { 2 + rng.below(15) };
     let mut ops = Vec::with_capacity(n + 1);
-    let nints = if rng.chance(1, 10) { 3 + rng.below(5) } else { rng.below(3) };
+    let nints = if rng.chance(1, 10) { *rng.pick(&[3usize, 4, 6, 9, 17, 33]) } else { rng.below(3) };
     ops.push(Op::New { ext: gen_ring(&mut rng), ints: (0..nints).map(|_| gen_ring(&mut rng)).collect() });
     if rng.chance(1, 3) {
         ops.push(Op::RectNew { a: gen_c(&mut rng), b: gen_c(&mut rng) });
